@@ -7,7 +7,7 @@ legs to_a and from_b of the same module: expected(a -> b)(x) = from_b(to_a(x)).
   scalar run-time    PhQ::Convert(x, from, to) with BOTH units symbolic: every path's result term equals
                      expected(from -> to); absent-key paths (end() dereference, bad_function_call) must be infeasible
                      for enumerators of the type
-  containers         std::array<T,N> (N=1,2,3,6,9), std::vector<T> (size 0..3), PlanarVector, Vector, SymmetricDyad,
+  containers         std::array<T,N> (N=1,2,3,6,9), std::vector<T> (sizes 0,1,3,5 quick; 0-5,7,8,9,17 thorough), PlanarVector, Vector, SymmetricDyad,
                      Dyad; in-place, copying and compile-time forms: component i equals the scalar term of component i,
                      copying forms leave their argument unchanged (frame condition on the input buffer)
   quantities         Q(v, u).Value() = to_u(v);  Q.Value(u), Q.StaticValue<u>() = from_u;  Q::Create<u>(v) = to_u(v)
@@ -35,6 +35,10 @@ def pick_units(e):
     a = ns[len(ns) // 2] if ns else std
     b = ns[-1] if len(ns) > 1 else (ns[0] if ns else std)
     return names, std, a, b
+
+
+# std::vector lengths: 5 = one block of four plus a tail for any blocked/unrolled rewrite, 3 = block of two plus tail
+VECTOR_SIZES = {True: (0, 1, 3, 5), False: (0, 1, 2, 3, 4, 5, 7, 8, 9, 17)}
 
 
 def generate(inv, tb, T, quantities_of):
@@ -75,7 +79,7 @@ def generate(inv, tb, T, quantities_of):
                     w = H.Wrapper('w_c_%s_%s%d_%s_%d_%d' % (tag, cls[:3], n, fk, f, t_), T, n, T, n, body, flatten=False)
                     ws.append(w)
                     obs.append(dict(base, id='%s %s %s<%d> [%s]' % (pid, fk, cls, n, ct), kind='container', w=w.name, n=n, f=f, t=t_))
-            for n in (0, 1, 3):
+            for n in VECTOR_SIZES[core.tier() == 'quick']:
                 for fk in ('copy', 'inplace'):
                     if fk == 'copy':
                         body = 'const std::vector<%s> v(in, in + %d); const std::vector<%s> r = PhQ::Convert(v, %s, %s); iout[0] = (long)r.size(); for (std::size_t i = 0; i < r.size() && i < %d; ++i) out[i] = r[i]; for (std::size_t i = 0; i < v.size() && i < %d; ++i) out[%d + i] = v[i];' % (
@@ -340,7 +344,7 @@ def main():
                                          extra_clang=['-fno-inline']))
     results = engine.run_units(specs, worker, work)
     engine.collect(rep, results)
-    rep.bounds = {'numeric_types': types, 'obligations_generated': total, 'vector_sizes': [0, 1, 3], 'array_sizes': [1, 2, 3, 6, 9],
+    rep.bounds = {'numeric_types': types, 'obligations_generated': total, 'vector_sizes': list(VECTOR_SIZES[core.tier() == 'quick']), 'array_sizes': [1, 2, 3, 6, 9],
                   'unit_pairs': 'scalar run-time path: all ordered pairs of every type (both units symbolic); containers: representative pairs per type (quick: non-standard/non-standard and non-standard/standard; thorough adds standard/non-standard and same unit); quantities: one non-standard unit per quantity',
                   'inputs': 'all bit patterns of every component'}
     rep.assumptions = [
